@@ -125,5 +125,147 @@ Proof.
     match goal with H : stack th = [] |- _ => rewrite H end. reflexivity. }
   rewrite Hpe, app_nil_r. reflexivity.
 Qed.
+
+(* ---------- a Close that returned means the Reassembler is closed ---------- *)
+Definition bad_frame (f : frame) : bool := match f with FRet CClose _ => true | FClear => true | _ => false end.
+Definition nobad (ths : list thread) : Prop := Forall (fun th => Forall (fun f => bad_frame f = false) (stack th)) ths.
+Definition is_close_ret (e : ev) : bool := match e with EvRet _ CClose _ => true | _ => false end.
+Definition I2 (ths : list thread) (s : state) (tr : list ev) : Prop := closed s = false -> nobad ths /\ existsb is_close_ret tr = false.
+
+Lemma Forall_upd {A} (P : A -> Prop) : forall t (l : list A) x, Forall P l -> P x -> Forall P (upd t x l).
+Proof. induction t as [|t IH]; intros [|y l] x Hl Hx; cbn; auto; inversion Hl; subst; constructor; auto. Qed.
+Lemma Forall_nth {A} (P : A -> Prop) : forall t (l : list A) x, Forall P l -> nth_error l t = Some x -> P x.
+Proof. intros t l x Hl Hn. rewrite Forall_forall in Hl. apply Hl. eapply nth_error_In; eauto. Qed.
+
+Lemma cleanup_closed' force now s : closed (fst (cleanup force cfg now s)) = closed s.
+Proof. unfold cleanup. destruct (evict force cfg now (seqs s) (events s) (lastSeq s) (hasLast s)) as [[[[[a b] c] d] e] f]. reflexivity. Qed.
+Lemma put_closed' now m s : closed (put cfg now m s) = closed s.
+Proof. unfold put. destruct (lookup _ _); destruct (mty m =? _); reflexivity. Qed.
+
+Lemma deliver_frames_nobad outs : Forall (fun f => bad_frame f = false) (deliver_frames outs).
+Proof. unfold deliver_frames. apply Forall_forall. intros f Hf. apply in_flat_map in Hf. destruct Hf as (o & _ & Hf). destruct o; cbn in Hf; try contradiction; destruct Hf as [<-|[]]; reflexivity. Qed.
+
+Lemma tstep_I2 t now ths s tr th : nth_error ths t = Some th -> I2 ths s tr ->
+  let '(th', s', evs) := tstep cb cfg t now th s in I2 (upd t th' ths) s' (tr ++ evs).
+Proof.
+  intros Hn HI. unfold tstep. destruct (stack th) as [|f rest] eqn:Es.
+  - destruct (todo th) as [|c cs]; intros Hc; destruct (HI Hc) as [Hnb Hnr]; (split; [|rewrite existsb_app, Hnr; reflexivity]).
+    + apply Forall_upd; auto. apply (Forall_nth _ _ _ _ Hnb Hn).
+    + apply Forall_upd; auto. cbn [stack]. repeat constructor.
+  - assert (Main: forall s' fs evs, (closed s' = false -> closed s = false) ->
+                  (bad_frame f = false -> closed s' = false -> Forall (fun f => bad_frame f = false) fs /\ existsb is_close_ret evs = false) ->
+                  I2 (upd t {| stack := fs ++ rest; todo := todo th |} ths) s' (tr ++ evs)).
+    { intros s' fs evs Hmono Hnew Hc. destruct (HI (Hmono Hc)) as [Hnb Hnr].
+      pose proof (Forall_nth _ _ _ _ Hnb Hn) as Hth. cbv beta in Hth. rewrite Es in Hth. inversion Hth as [|? ? Hf Hrest]; subst.
+      destruct (Hnew Hf Hc) as [Hfs Hevs]. split.
+      - apply Forall_upd; auto. cbn [stack]. apply Forall_app; auto.
+      - rewrite existsb_app, Hnr, Hevs. reflexivity. }
+    destruct f as [[m| |] | m | | | | | g | n | c ok]; cbn [exec].
+    + apply Main; [auto | intros _ _; split; [repeat (apply Forall_cons; [reflexivity|]); apply Forall_nil | reflexivity]].
+    + apply Main; [auto | intros _ _; split; [repeat (apply Forall_cons; [reflexivity|]); apply Forall_nil | reflexivity]].
+    + apply Main; [auto | intros _ _; split; [repeat (apply Forall_cons; [reflexivity|]); apply Forall_nil | reflexivity]].
+    + apply Main; [rewrite put_closed'; auto|intros _ _; split; [apply Forall_nil|reflexivity]].
+    + pose proof (cleanup_closed' false now s) as Hc. destruct (cleanup false cfg now s) as [s' outs]. cbn [fst] in Hc.
+      apply Main; [rewrite Hc; auto|intros _ _; split; [apply deliver_frames_nobad|reflexivity]].
+    + destruct (closed s) eqn:Ecl; (apply Main; [intros C; congruence | intros _ _; split; [repeat (apply Forall_cons; [reflexivity|]); apply Forall_nil | reflexivity]]).
+    + destruct (closed s) eqn:Ecl.
+      * apply Main; [intros C; congruence|intros _ C; congruence].
+      * apply Main; [cbn [closed]; discriminate|intros _ C; cbn [closed] in C; discriminate].
+    + pose proof (cleanup_closed' true now s) as Hc. destruct (cleanup true cfg now s) as [s' outs]. cbn [fst] in Hc.
+      apply Main; [rewrite Hc; auto|intros Hb; discriminate Hb].
+    + apply Main; [auto|]. intros _ _. split; [|reflexivity]. apply Forall_forall. intros f Hf. apply in_map_iff in Hf. destruct Hf as (c & <- & _). reflexivity.
+    + apply Main; [auto|]. intros _ _. split; [apply Forall_nil|reflexivity].
+    + apply Main; [auto|]. intros Hb _. split; [apply Forall_nil|]. destruct c; try reflexivity. discriminate Hb.
+Qed.
+
+Lemma crun_I2 : forall sched ths s tr, I2 ths s tr -> let '(ths', s', evs) := crun cb cfg sched ths s in I2 ths' s' (tr ++ evs).
+Proof.
+  induction sched as [|[t now] sched IH]; intros ths s tr HI; cbn [crun].
+  - rewrite app_nil_r. exact HI.
+  - destruct (nth_error ths t) as [th|] eqn:En.
+    + pose proof (tstep_I2 t now ths s tr th En HI) as HS. destruct (tstep cb cfg t now th s) as [[th' s'] evs].
+      specialize (IH (upd t th' ths) s' (tr ++ evs) HS). destruct (crun cb cfg sched (upd t th' ths) s') as [[ths'' s''] evs'].
+      rewrite app_assoc. exact IH.
+    + apply IH; auto.
+Qed.
+
+(* if any Close call returned, exactly one compare-and-swap won *)
+Theorem close_returned_one_winner : forall sched ths, Forall (fun th => stack th = []) ths ->
+  let '(ths', s', tr) := crun cb cfg sched ths init in
+  existsb is_close_ret tr = true -> cas_oks tr = 1%nat.
+Proof.
+  intros sched ths H0.
+  assert (Hp: pending ths = []).
+  { clear - H0. induction ths as [|th r IH]; auto. inversion H0; subst. cbn. unfold pending in IH. rewrite IH; auto.
+    match goal with H : stack th = [] |- _ => rewrite H end. reflexivity. }
+  assert (HI0: I2 ths init []).
+  { intros _. split; [|reflexivity]. eapply Forall_impl; [|exact H0]. intros th E. rewrite E. constructor. }
+  pose proof (crun_I2 sched ths init [] HI0) as H2. pose proof (crun_inv cb cfg sched ths init [] (CInv_init ths Hp)) as H1.
+  destruct (crun cb cfg sched ths init) as [[ths' s'] tr]. cbn [app] in *.
+  intros Hr. destruct H1 as (U & _ & _ & _ & Hc1). apply Hc1.
+  destruct (closed s') eqn:E; auto. destruct (H2 E) as [_ C]. congruence.
+Qed.
+
+(* ---------- delivered groups hold one sequence number ---------- *)
+Definition one_seq (g : list msg) : Prop := match g with [] => False | m0 :: r => Forall (fun m => mseq m = mseq m0) r end.
+Definition frame_ok (f : frame) : Prop := match f with FDeliver g => one_seq g | _ => True end.
+Definition ev_ok (e : ev) : Prop := match e with EvComplete _ g => one_seq g | _ => True end.
+Definition I3 (ths : list thread) (tr : list ev) : Prop := Forall (fun th => Forall frame_ok (stack th)) ths /\ Forall ev_ok tr.
+
+Lemma chk_outs_one_seq : forall outs U U', chk_outs U outs = Some U' -> Forall frame_ok (deliver_frames outs).
+Proof.
+  induction outs as [|o outs IH]; intros U U' H; cbn [chk_outs deliver_frames flat_map] in *. constructor.
+  destruct o as [g|n|b|]; try discriminate; cbn [app]; try (eapply IH; eauto; fail).
+  - destruct g as [|m0 g]; try discriminate. destruct (list_eqb (m0 :: g) (filter (sameseq (mseq m0)) U)) eqn:E; try discriminate.
+    apply list_eqb_eq in E. constructor; [|eapply IH; eauto]. cbn [frame_ok one_seq].
+    apply Forall_forall. intros m Hm. assert (Hin: In m (filter (sameseq (mseq m0)) U)) by (rewrite <- E; right; exact Hm).
+    apply filter_In in Hin. destruct Hin as [_ Hs]. unfold sameseq in Hs. apply Z.eqb_eq in Hs. exact Hs.
+  - constructor; [exact I|]. eapply IH; eauto.
+Qed.
+
+Lemma tstep_I3 t now ths s tr th : nth_error ths t = Some th -> CInv ths s tr -> I3 ths tr ->
+  let '(th', s', evs) := tstep cb cfg t now th s in I3 (upd t th' ths) (tr ++ evs).
+Proof.
+  intros Hn HCI [Hst Htr]. pose proof (Forall_nth _ _ _ _ Hst Hn) as Hth. unfold tstep. destruct (stack th) as [|f rest] eqn:Es.
+  - destruct (todo th) as [|c cs]; (split; [|rewrite app_nil_r; auto]); apply Forall_upd; auto. cbn [stack]. repeat constructor.
+  - cbv beta in Hth. rewrite Es in Hth. inversion Hth as [|? ? Hf Hrest]; subst.
+    assert (Main: forall fs evs, Forall frame_ok fs -> Forall ev_ok evs -> I3 (upd t {| stack := fs ++ rest; todo := todo th |} ths) (tr ++ evs)).
+    { intros fs evs H1 H2. split. apply Forall_upd; auto. cbn [stack]. apply Forall_app; auto. apply Forall_app; auto. }
+    destruct HCI as (U & HI & _).
+    destruct f as [[m| |] | m | | | | | g | n | c ok]; cbn [exec]; try (apply Main; repeat constructor; fail).
+    + pose proof (cleanup_ok false cfg now s U HI) as HC. destruct (cleanup false cfg now s) as [s' outs]. destruct HC as (U' & Hchk & _).
+      apply Main; [eapply chk_outs_one_seq; eauto|constructor].
+    + destruct (closed s); apply Main; repeat constructor.
+    + destruct (closed s); apply Main; repeat constructor.
+    + pose proof (cleanup_ok true cfg now s U HI) as HC. destruct (cleanup true cfg now s) as [s' outs]. destruct HC as (U' & Hchk & _).
+      apply Main; [eapply chk_outs_one_seq; eauto|repeat constructor].
+    + apply Main. apply Forall_forall. intros f Hf'. apply in_map_iff in Hf'. destruct Hf' as (c & <- & _). exact I. repeat constructor. exact Hf.
+Qed.
+
+Lemma crun_I3 : forall sched ths s tr, CInv ths s tr -> I3 ths tr -> let '(ths', s', evs) := crun cb cfg sched ths s in I3 ths' (tr ++ evs).
+Proof.
+  induction sched as [|[t now] sched IH]; intros ths s tr HCI HI; cbn [crun].
+  - rewrite app_nil_r. exact HI.
+  - destruct (nth_error ths t) as [th|] eqn:En.
+    + pose proof (tstep_inv cb cfg t now ths s tr th En HCI) as HS. pose proof (tstep_I3 t now ths s tr th En HCI HI) as H3.
+      destruct (tstep cb cfg t now th s) as [[th' s'] evs].
+      specialize (IH (upd t th' ths) s' (tr ++ evs) HS H3). destruct (crun cb cfg sched (upd t th' ths) s') as [[ths'' s''] evs'].
+      rewrite app_assoc. exact IH.
+    + apply IH; auto.
+Qed.
+
+Theorem groups_single_sequence : forall sched ths, Forall (fun th => stack th = []) ths ->
+  let '(ths', s', tr) := crun cb cfg sched ths init in Forall ev_ok tr.
+Proof.
+  intros sched ths H0.
+  assert (Hp: pending ths = []).
+  { clear - H0. induction ths as [|th r IH]; auto. inversion H0; subst. cbn. unfold pending in IH. rewrite IH; auto.
+    match goal with H : stack th = [] |- _ => rewrite H end. reflexivity. }
+  assert (HI0: I3 ths []). { split; [|constructor]. eapply Forall_impl; [|exact H0]. intros th E. rewrite E. constructor. }
+  pose proof (crun_I3 sched ths init [] (CInv_init ths Hp) HI0) as H3.
+  destruct (crun cb cfg sched ths init) as [[ths' s'] tr]. cbn [app] in H3. exact (proj2 H3).
+Qed.
 End F.
 Print Assumptions flushed_after_close.
+Print Assumptions close_returned_one_winner.
+Print Assumptions groups_single_sequence.
